@@ -26,6 +26,14 @@ from pathlib import Path
 from src.core.types import Violation
 
 
+
+def _show(value: int | float) -> str:
+    """Render a numeric value for a message; huge integers exceed CPython's int->str digit limit."""
+    try:
+        return str(value)
+    except ValueError:
+        return hex(value) if isinstance(value, int) else repr(value)
+
 class ViolationBuilder:
     """Builds violations for magic number detections."""
 
@@ -55,9 +63,9 @@ class ViolationBuilder:
         Returns:
             Violation object with details about the magic number
         """
-        message = f"Magic number {value} should be a named constant"
+        message = f"Magic number {_show(value)} should be a named constant"
 
-        suggestion = f"Extract {value} to a named constant (e.g., CONSTANT_NAME = {value})"
+        suggestion = f"Extract {_show(value)} to a named constant (e.g., CONSTANT_NAME = {_show(value)})"
 
         return Violation(
             rule_id=self.rule_id,
@@ -84,10 +92,10 @@ class ViolationBuilder:
         Returns:
             Violation object with details about the magic number
         """
-        message = f"Magic number {value} should be a named constant"
+        message = f"Magic number {_show(value)} should be a named constant"
 
         suggestion = (
-            f"Extract {value} to a named constant (e.g., const CONSTANT_NAME: i32 = {value})"
+            f"Extract {_show(value)} to a named constant (e.g., const CONSTANT_NAME: i32 = {_show(value)})"
         )
 
         return Violation(
@@ -115,9 +123,9 @@ class ViolationBuilder:
         Returns:
             Violation object with details about the magic number
         """
-        message = f"Magic number {value} should be a named constant"
+        message = f"Magic number {_show(value)} should be a named constant"
 
-        suggestion = f"Extract {value} to a named constant (e.g., const CONSTANT_NAME = {value})"
+        suggestion = f"Extract {_show(value)} to a named constant (e.g., const CONSTANT_NAME = {_show(value)})"
 
         return Violation(
             rule_id=self.rule_id,
